@@ -44,7 +44,13 @@ func TestC11(t *testing.T) {
 	coldStart = true
 	runProp(t, "C11", checkC11, func(t *rapid.T) *Case {
 		fams := []famWeight{{"K1", 20}, {"K2", 25}, {"K3", 15}, {"K5", 15}, {"K6", 10}, {"K7", 5}, {"Krand", 10}}
-		c := genTrieCase(t, trieGenOpt{fams: fams})
+		go_ := trieGenOpt{fams: fams}
+		if pickU(t, "varwidth?", 3) == 0 {
+			// leaves stored as a variable-length array (values of different encoded
+			// sizes): another representation behind every value read (C11-g)
+			go_.encs, go_.needVals = []string{"String16", "OptU16", "String16"}, true
+		}
+		c := genTrieCase(t, go_)
 		// half of the cases Complete (scans, iterators), half any mode
 		if rapid.Bool().Draw(t, "complete") {
 			c.Opt = genCompleteOpt(t)
